@@ -857,6 +857,23 @@ def discharge(ctx, body, p, ev, kind):
                         and mentions(lp[1][1], lambda s: s == strip_refs(coll)) and is_call(hp, "::len") and (strip_refs(call_args(hp)[0]) == strip_refs(coll) or mentions(coll, lambda s: s == strip_refs(call_args(hp)[0]))):
                     return "G6-suffix-from-position"
             return None
+        if last == "index" and ("for str" in nm or "String" in nm) and agg_variant(ev.args[1]) and agg_variant(ev.args[1])[1] in ("RangeFrom", "Range", "RangeTo"):
+            # x[k..] / x[..k] right after x was shown to start with an ASCII literal of at least k bytes: k is a character boundary within x
+            k_ = None
+            a_ = agg_variant(ev.args[1])
+            if a_[1] == "RangeFrom" or (a_[1] == "Range" and length_of(a_[2][1]) is not None and length_of(a_[2][1]) == _lib.coll(ev.args[0])):
+                k_ = const_int(strip_refs(a_[2][0]))
+            elif a_[1] == "RangeTo":
+                k_ = const_int(strip_refs(a_[2][0]))
+            if k_ is not None and k_ >= 0:
+                x0 = strip_refs(ev.args[0])
+                for c in conds_before(p, bb):
+                    t = c.term
+                    if c.fact == ("eq", True) and is_call(t, "dewey::starts_with_ignore_ascii_case", "str>::starts_with") and len(call_args(t)) == 2 and strip_refs(call_args(t)[0]) == x0:
+                        lit = const_str(call_args(t)[1])
+                        if lit is not None and lit.isascii() and k_ <= len(lit):
+                            if is_call(t, "str>::starts_with") or not required_rules_failing(ctx, "C01", ["D2-TOK-CASE"]):
+                                return "G6-cut-inside-a-matched-ascii-prefix"
         if last == "index" and ("for str" in nm or "String" in nm) and body.key == "dewey::Dewey::new" and content(ev.args[0]) == ("param", 1) \
                 and _lib.canon_range(ev.args[0], ev.args[1]) is not None:
             # the slices of the pattern between recorded operator positions: pattern[rec0.vstart..], [rec0.vstart..rec1.start], [rec1.vstart..], [0..rec0.start].
@@ -1411,12 +1428,19 @@ def termination(ctx):
                 worst = ""
                 for p in backs:
                     v = p.env.get(idx)
-                    adds = []
-                    t_ = v
-                    while isinstance(t_, tuple) and t_[0] == "binop" and t_[1] == "Add":
-                        adds.append(t_[3])
-                        t_ = t_[2]
-                    base_ok = isinstance(t_, tuple) and t_[0] == "havoc" and t_[1] == idx
+                    # the leaves of the sum, however it is bracketed (`idx += 2; idx += n` or `idx += 2 + n`)
+                    leaves = []
+
+                    def walk_(x):
+                        if isinstance(x, tuple) and x and x[0] == "binop" and x[1] == "Add":
+                            walk_(x[2])
+                            walk_(x[3])
+                        else:
+                            leaves.append(x)
+                    walk_(v)
+                    bases = [x for x in leaves if isinstance(x, tuple) and x and x[0] == "havoc" and x[1] == idx]
+                    base_ok = len(bases) == 1
+                    adds = [x for x in leaves if not (base_ok and x is bases[0])]
                     pos = False
                     for a in adds:
                         k = const_int(a)
